@@ -10,7 +10,7 @@ out = [head, "## 11. Per-property build and triage log (as built)\n\n",
        "One subsection per property, written by whoever built the check (`design.d/Cxx.md`): model, theorem list, "
        "correspondence generator and bounds, oracle clauses, what the check found on the tree, false alarms corrected in "
        "the machinery, deviations from §8, self-test mutants, measured cost.\n\n"]
-for f in sorted((V / "design.d").glob("C*.md")):
+for f in sorted(list((V / "design.d").glob("C*.md")) + list((V / "design.d").glob("TR.md"))):
     t = f.read_text().strip()
     t = re.sub(r"^(#{1,6}) ", lambda m: "#" * min(6, max(3, len(m.group(1)) + (0 if t.startswith("###") else 2))) + " ", t, flags=re.M) if not t.startswith("### ") else t
     if not t.lstrip().startswith("#"):
